@@ -1,26 +1,28 @@
 """C16 — dt.List (and dt.Stack) stay well-formed and match a sequence model."""
-DRIVERS = ["c16"]
-PROPS = ["C16"]
+DRIVERS = ["c16", "c16stack"]
+PROPS = ["C16", "C16_stack"]
 TRUSTED = [
     "sort.SliceStable is modelled as a stable sort (Go standard library trusted); SortQuick is only run with strict weak orders",
     "encoding/json byte syntax is trusted; MarshalJSON/UnmarshalJSON are modelled at the level of the decoded value sequence",
     "fun.Iterator plumbing around the four list producers is trusted; the producers themselves are modelled as cursor machines and compared drained",
     "dt/verif_export.go (build tag verif): raw root/next/prev/list accessors used by the driver's observations",
+    "Stack: fun.Iterator around Stack.Producer/ProducerPop is used as the client would; only the producers are modelled",
 ]
 ASSUMPTIONS = [
     "handles are elements of the world (allocated nodes) or nil; methods called on a nil receiver panic in the code and are Panic in the model (excluded from the theorems' conclusions, included in correspondence)",
     "Extend(l, l) on one and the same list is outside the property (does not terminate in the code for len >= 2); never generated",
     "theorems about operation sequences are proved under the decidable guard avoids_swap (no *successful* Swap; known finding C16:List.Swap:success, refuted for the unguarded statement)",
+    "Stack theorems: operation lists avoid Item.Remove of the current head item (known finding C16:Item.Remove:attached-head, refuted for the unguarded statement) and Item.Detach (outside the property's operation list; modelled faithfully, correspondence-only)",
 ]
 EXPLANATION = ("Theorems in coq/Props/C16.v about the pointer-level model coq/Model/ListHeap.v (heap of nodes, two or more lists, "
-               "every method transcribed statement by statement). The model is tied to /repo by re-running it under vm_compute on "
+               "every method transcribed statement by statement) and in coq/Props/C16_stack.v about coq/Model/StackHeap.v (dt/stack.go likewise). The models are tied to /repo by re-running it under vm_compute on "
                "every generated operation sequence and comparing, after every step, both walk directions, Slice, Len and "
                "owner/ok/value/next/prev of every element handle with what the real dt.List showed; a plain-slice reference "
                "implementation in the Go driver is the direct oracle.")
 READY = True
 LEVEL_TEXT = ("Machine-checked Coq theorems over all operation sequences and all handle choices on a code-level heap model of dt.List: "
               "well-formedness (ring, ownership, length) is preserved, the list refines a plain sequence, walks/Slice/Len/In agree, "
-              "rejected operations change nothing; known finding Swap refuted by witness and excluded by a decidable guard.")
+              "rejected operations change nothing; known finding Swap refuted by witness and excluded by a decidable guard. The same for dt.Stack (LIFO reference, head-removal finding refuted and guarded).")
 LEVEL_NOTE = ("Trusted: Coq kernel + vm_compute; hand-written pointer-level model; correspondence is differential testing "
               "(3k sequences quick); sort.SliceStable, encoding/json and fun.Iterator trusted.")
 TECHNIQUE = "Coq proof (ring invariant, refinement to list Z, induction over op sequences) + vm_compute correspondence against dt.List"
